@@ -31,15 +31,13 @@ Inductive word_class :=
 | WcHosts (e : bytes).                         (* a host expression *)
 
 Definition classify_word (w : bytes) : word_class :=
-  let '(ex, p0) := match w with 45 :: r => (true, r) | _ => (false, w) end in
-  let p := drop_while is_space p0 in
-  match p with
-  | 94 :: path => WcFile ex path
-  | 47 :: _ => WcRegex
-  | _ => if ex then WcExcluded
-         else if mem 58 p || mem 64 p then WcTyped
-         else WcHosts p
-  end.
+  let ex := is_prefix [45] w in                                   (* a leading '-' *)
+  let p := drop_while is_space (if ex then skipn 1 w else w) in   (* leading white space skipped *)
+  if is_prefix [94] p then WcFile ex (skipn 1 p)
+  else if is_prefix [47] p then WcRegex
+  else if ex then WcExcluded
+  else if mem 58 p || mem 64 p then WcTyped
+  else WcHosts p.
 
 (* opt->wcoll (None = NULL), what is left of standard input, warnings so far *)
 Record astate := mkast { as_list : option (list bytes); as_stdin : bytes; as_warn : nat }.
